@@ -100,3 +100,166 @@ def wf_family(prop, tier):
 
 def layout_family(tier):
     return []
+
+
+# ------------------------------------------------------------------------------------------ C03
+
+def c03_subs():
+    """Test sub-routines registered through Compiler.add_sub_routine: identity per type (argument conversion)
+    and S -> T returners (return conversion)."""
+    subs = {}
+    for t, w, s in TYPES:
+        subs[f"vf_id_{t}"] = dict(return_type=t, params=[f"{t} x"], code="{ return x; }")
+    for (s_, _, _), (t, _, _) in itertools.product(TYPES, TYPES):
+        if s_ != t:
+            subs[f"vf_conv_{s_}_{t}"] = dict(return_type=t, params=[f"{s_} x"], code="{ return x; }")
+    return subs
+
+
+def c03(tier):
+    rng = random.Random(seed() * 7919 + 3)
+    out = []
+    for (s_, ws, _), (t, wt, _) in itertools.product(TYPES, TYPES):
+        d = decl(s_, ws, "a", "s")
+        out.append(f"{{ {d} RddV = ({t})a; }}")                       # explicit cast
+        out.append(f"{{ {d} {t} b = a; RddV = b; }}")                  # initialiser
+        out.append(f"{{ {d} {t} b; b = a; RddV = b; }}")               # assignment to a declared local
+        out.append(f"{{ {d} RddV = vf_id_{t}(a); }}")                  # argument conversion
+        if s_ != t:
+            out.append(f"{{ {d} RddV = vf_conv_{s_}_{t}(a); }}")       # return conversion
+    for (s_, ws, _) in TYPES:
+        d = decl(s_, ws, "a", "s")
+        out.append(f"{{ {d} RdV = a; }}")                               # 32-bit register
+        out.append(f"{{ {d} RddV = a; }}")                              # 64-bit register
+        out.append(f"{{ {d} PdV = a; }}")                               # predicate register
+        out.append(f"{{ {d} RxV = a; }}")
+        out.append(f"{{ {d} RddV = extract64(a, 4, 8); }}")             # argument of a bit-field macro (uint64_t)
+        out.append(f"{{ {d} RddV = sextract64(a, 0, 16); }}")
+        out.append(f"{{ {d} RdV = extract32(a, 3, 7); }}")
+        out.append(f"{{ {d} RdV = bswap32(a); }}")
+        out.append(f"{{ {d} RddV = deposit64(RttV, 8, 16, a); }}")
+        for sg, w in itertools.product("us", (8, 16, 32, 64)):
+            out.append(f"{{ {d} mem_store_{sg}{w}(RtV, a); }}")        # memory store of width w
+            out.append(f"{{ {d} EA = RtV; mem_store_{sg}{w}(EA, a); RddV = mem_load_{sg}{w}(EA); }}")
+    # boolean source
+    for (t, wt, _) in TYPES:
+        out.append(f"{{ RddV = ({t})(RsV < RtV); }}")
+        out.append(f"{{ {t} b = (RsV == RtV); RddV = b; }}")
+        out.append(f"{{ {t} b; b = !RsV; RddV = b; }}")
+        out.append(f"{{ RddV = vf_id_{t}(RsV > RtV); }}")
+        out.append(f"{{ RddV = vf_id_{t}(RsV && RtV); }}")
+    out += ["{ RdV = (RsV < RtV); }", "{ RddV = (RsV <= RtV); }", "{ PdV = (RsV != RtV); }", "{ RdV = !RsV; }",
+            "{ PdV = !RsV; }", "{ RdV = (RsV || RtV); }", "{ mem_store_u8(RuV, (RsV < RtV)); }",
+            "{ mem_store_u32(RuV, !RsV); }", "{ RxV = (RxV < RtV); }"]
+    # chains of up to three conversions
+    triples = list(itertools.product(TNAME, repeat=3))
+    if tier != "thorough":
+        triples = rng.sample(triples, 96)
+    for t1, t2, t3 in triples:
+        out.append(f"{{ RddV = ({t3})({t2})({t1})RssV; }}")
+        if tier == "thorough":
+            out.append(f"{{ {t1} a = RsV; {t2} b = a; {t3} c = b; RddV = c; }}")
+    for t1, t2 in itertools.product(TNAME, repeat=2):
+        out.append(f"{{ RddV = ({t2})({t1})RsV; }}")
+    return out
+
+
+# ------------------------------------------------------------------------------------------ C05
+ASSIGN_OPS = ["=", "+=", "-=", "*=", "/=", "%=", "<<=", ">>=", "&=", "^=", "|="]
+CONDS = ["RsV > 0", "RsV & 1", "RxV == RyV", "RsV", "(RsV < RtV) && (RtV != 0)", "!RtV"]
+SIMPLE = ["RxV = RxV * 3 + 1;", "RxV ^= RsV;", "RyV = RyV + RxV;", "mem_store_u32(RtV, RxV);",
+          "RyV = (int32_t)mem_load_u32(RtV) + RxV;", "n = n * 5 + RxV;", "RxV = n;", ";", "{ }", "{ RxV = RxV + 2; ; }",
+          "mem_store_u8(RtV + 1, RyV);", "RyV -= 7;"]
+
+
+def c05_assign():
+    out = []
+    for op in ASSIGN_OPS:
+        rhs_types = TYPES
+        for (t, w, _) in rhs_types:
+            d = decl(t, w, "a", "s")
+            rhs = "(a & 7)" if op in ("<<=", ">>=") else "(a | 1)" if op in ("/=", "%=") else "a"
+            out.append(f"{{ {d} RxV {op} {rhs}; }}")
+            out.append(f"{{ {d} RxxV {op} {rhs}; }}")
+            for (lt, lw, _) in TYPES:
+                if lw >= 32:
+                    out.append(f"{{ {d} {lt} n = RtV; n {op} {rhs}; RddV = n; }}")
+        out.append(f"{{ RdV {op} (RsV | 1); }}")
+        out.append(f"{{ PxV {op} (RsV | 1); }}")
+    return out
+
+
+def c05_assign_narrow():
+    """Compound assignment on 8/16-bit locals (outside the property's 32/64-bit quantifier, kept as exploration)."""
+    out = []
+    for op in ASSIGN_OPS:
+        for (lt, lw, _) in TYPES:
+            if lw < 32:
+                rhs = "(RsV & 3)" if op in ("<<=", ">>=") else "(RsV | 1)"
+                out.append(f"{{ {lt} n = RtV; n {op} {rhs}; RddV = n; }}")
+    return out
+
+
+def c05_struct():
+    out = []
+    pre = "int32_t n = RsV;"
+    for c in CONDS:
+        for s1 in SIMPLE[:7]:
+            out.append(f"{{ {pre} if ({c}) {{ {s1} }} RyV = RyV * 3 + RxV; }}")
+            out.append(f"{{ {pre} if ({c}) {s1} else {{ RxV = RxV - 9; }} RyV = RyV * 3 + RxV; }}")
+    for c1, c2 in itertools.product(CONDS[:4], CONDS[:4]):
+        out.append(f"{{ {pre} if ({c1}) {{ RxV = 1; }} else if ({c2}) {{ RxV = 2; }} else {{ RxV = 3; }} RyV = RxV; }}")
+        out.append(f"{{ {pre} if ({c1}) {{ if ({c2}) {{ RxV = 1; }} else {{ RxV = 2; }} RyV = RxV + 5; }} }}")
+        out.append(f"{{ {pre} if ({c1}) {{ RxV = 1; }} else if ({c2}) {{ RxV = 2; }} else if (RtV > 5) {{ RxV = 3; }} "
+                   f"else if (RtV < -5) {{ RxV = 4; }} RyV = RxV * 2; }}")
+    # for loops: constant trip counts 0..8, data-dependent trip counts, nesting
+    for k in range(0, 9):
+        out.append(f"{{ {pre} for (i = 0; i < {k}; i++) {{ RxV = RxV * 3 + i; }} RyV = RxV; }}")
+        out.append(f"{{ {pre} int j; for (j = {k}; j > 0; j--) {{ n = n + j; mem_store_u8(RtV + j, n); }} RxV = n; }}")
+    out.append(f"{{ {pre} for (i = 0; i < (RsV & 7); i++) {{ RxV = RxV * 3 + i; }} RyV = RxV; }}")
+    out.append(f"{{ {pre} for (i = 0; i < (RsV & 7); i++) {{ if (i & 1) {{ RxV = RxV + i; }} else {{ RyV = RyV ^ RxV; }} }} }}")
+    out.append(f"{{ {pre} for (i = (RsV & 3); i < 6; i = i + 2) {{ n += i; }} RxV = n; }}")
+    out.append(f"{{ {pre} for (i = 0; i < 3; i++) {{ for (j = 0; j < (RsV & 3); j++) {{ RxV = RxV * 5 + i + j; }} RyV += RxV; }} }}")
+    out.append(f"{{ {pre} for (i = 0; i < 2; i++) {{ for (j = 0; j < 2; j++) {{ for (k = 0; k < 2; k++) {{ n = n * 2 + (i ^ j ^ k); }} }} }} RxV = n; }}")
+    out.append(f"{{ {pre} for (i = 0; i < 4; i++) {{ mem_store_u8(RtV + i, RxV >> (8 * i)); }} RyV = mem_load_u32(RtV); }}")
+    out.append(f"{{ {pre} for (i = 0; i < 0; i++) {{ RxV = 77; }} RyV = i; }}")
+    out.append(f"{{ {pre} for (i = 5; i < 3; i++) {{ RxV = 77; }} RyV = i; }}")
+    out.append(f"{{ {pre} int x; x = 3; {{ int z = x + n; RxV = z; }} {{ ; ; }} RyV = x; }}")
+    out.append(f"{{ {pre} RxV = RyV = n; }}")
+    out.append(f"{{ {pre} int q; q = RxV = RsV + 1; RyV = q; }}")
+    return out
+
+
+def rand_stmt(rng, depth):
+    r = rng.random()
+    if depth == 0 or r < 0.45:
+        return rng.choice(SIMPLE)
+    if r < 0.65:
+        return f"if ({rng.choice(CONDS)}) {{ {rand_block(rng, depth - 1)} }}"
+    if r < 0.8:
+        return f"if ({rng.choice(CONDS)}) {{ {rand_block(rng, depth - 1)} }} else {{ {rand_block(rng, depth - 1)} }}"
+    if r < 0.93:
+        v = "ijk"[depth % 3]
+        bound = rng.choice(["2", "3", "(RsV & 3)", "1", "0"])
+        return f"for ({v} = 0; {v} < {bound}; {v}++) {{ {rand_block(rng, depth - 1)} }}"
+    return f"{{ {rand_block(rng, depth - 1)} }}"
+
+
+def rand_block(rng, depth):
+    return " ".join(rand_stmt(rng, depth) for _ in range(rng.choice([1, 2, 2, 3])))
+
+
+def c05_random(tier, rng):
+    n = 600 if tier == "thorough" else 120
+    out = []
+    while len(out) < n:
+        b = rand_block(rng, rng.choice([2, 3, 4]))
+        if len(b) <= 420:  # Earley parse time grows quickly with length
+            out.append(f"{{ int32_t n = RsV; {b} RyV = RyV * 7 + RxV + n; }}")
+    return out
+
+
+def c05(tier):
+    rng = random.Random(seed() * 7919 + 5)
+    seq2 = [f"{{ int32_t n = RsV; {a} {b} }}" for a, b in itertools.product(SIMPLE, SIMPLE)]
+    return c05_assign() + c05_struct() + seq2 + c05_random(tier, rng)
